@@ -950,6 +950,9 @@ theorem updatePolicies_perm (l1 l2 : List Rule) (olds news : List Rule) (h1 : l1
       have : (fun o => !l1.contains o) = (fun o => !l2.contains o) := funext fun o => by rw [hc]
       rw [this]
     simp only [hlen, Bool.false_eq_true, ↓reduceIte, hany]
+    by_cases hdup : (olds.any fun o => decide (olds.count o > 1)) = true
+    · simp only [hdup, ↓reduceIte]; exact ⟨trivial, hsame, h2, fun x hx => Or.inl hx⟩
+    simp only [hdup, Bool.false_eq_true, ↓reduceIte]
     by_cases hab : olds.any (fun o => !l2.contains o) = true
     · simp only [hab, ↓reduceIte]; exact ⟨trivial, hsame, h2, fun x hx => Or.inl hx⟩
     · simp only [hab, Bool.false_eq_true, ↓reduceIte]
@@ -1114,14 +1117,9 @@ theorem step_sim (sh : Shape) (fs : FastState order) (ps : PlainState) (op : Op)
       rw [hsized r ((hsame r).mp hr)]; exact hop
     have hpl : ∀ r ∈ ps.p, i + vs.length ≤ r.length := fun r hr => by rw [hsized r hr]; exact hop
     simp only [stepFast, stepPlain, removeFilteredEffects, Plain.removeFilteredEffects]
-    by_cases hv : vs.isEmpty = true
-    · obtain ⟨p', h1, hi, hs⟩ := ofList_spec (order := order) sh.cfg.pArity fs.p.iter hne hord
-        (fun r hr => hsized r ((hsame r).mp hr))
-      simp only [hv, ↓reduceIte, h1]
-      exact ⟨⟨hi, fun x => by rw [hs, hsame], hnd, hsized, hg⟩, by simp [Res.equiv]⟩
     · obtain ⟨p', h1, hi, hs⟩ := ofList_spec (order := order) sh.cfg.pArity (fs.p.iter.filter (fun r => !fm r i vs)) hne hord
         (fun r hr => hsized r ((hsame r).mp (List.mem_filter.mp hr).1))
-      simp only [hv, Bool.false_eq_true, ↓reduceIte, splitFiltered_ok i vs _ hiter, splitFiltered_ok i vs _ hpl, h1]
+      simp only [splitFiltered_ok i vs _ hiter, splitFiltered_ok i vs _ hpl, h1]
       refine ⟨⟨hi, ?_, hnd.filter _, fun x hx => hsized x (List.mem_filter.mp hx).1, hg⟩, ?_⟩
       · intro x; rw [hs]; simp only [List.mem_filter, hsame]
       · intro x; simp only [List.mem_filter, hsame]
